@@ -26,6 +26,14 @@ RULE = (
 )
 
 
+def _known(prop):
+    try:
+        with open(os.path.join(VERIF_DIR, "known_findings.json")) as f:
+            return [k for k in json.load(f).get("findings", []) if k.get("property") == prop]
+    except Exception:  # noqa
+        return []
+
+
 def write_evidence(prop, tier, seed, recs, tri, batch, wall, known_lines, viol):
     os.makedirs(os.path.join(VERIF_DIR, "evidence"), exist_ok=True)
     sigs, g2, g3 = set(), set(), set()
@@ -55,6 +63,11 @@ def write_evidence(prop, tier, seed, recs, tri, batch, wall, known_lines, viol):
         for k in r["foreign"]:
             kk = "/".join(k)
             foreign[kk] = foreign.get(kk, 0) + 1
+    knob_hist: dict = {}
+    for r in recs:
+        for k, v in (r.get("knobs") or {}).items():
+            knob_hist.setdefault(k, {})
+            knob_hist[k][v] = knob_hist[k].get(v, 0) + 1
     samples = [r["sample_ops"] for r in recs if "sample_ops" in r][:3]
     zero_probes = sorted(k for k, v in probes.items() if v == 0)
     ws = max(batch["wall_sessions"], 1e-6)
@@ -83,6 +96,8 @@ def write_evidence(prop, tier, seed, recs, tri, batch, wall, known_lines, viol):
             distinct_op_2grams=len(g2),
             distinct_op_3grams=len(g3),
             probes=dict(sorted(probes.items())),
+            environment_knobs_per_session=knob_hist,
+            carve_outs=[dict(id=k["id"], carve_out=k.get("carve_out")) for k in _known(prop) if k.get("status") == "known"],
             probes_at_zero=zero_probes,
             components=COMPONENTS,
             foreign_invariant_failures=foreign,
